@@ -338,3 +338,112 @@ theorem decPrimsC_quiet : Quiet decPrimsC :=
   ⟨decNumericC_same, decStringC_same, decCodeflagC_same, decConstant_same⟩
 
 end Bufr.C07
+
+namespace Bufr.C07
+
+/-! ### `elementDescriptor` in three stages -/
+
+/-- stage 1: the associated field -/
+def stAssoc (P : Prims) (e : Elem) (s : St) : CM St :=
+  if s.regs.assocStack ≠ [] ∧ xOf e.id ≠ 31 then associatedField P e.id s else pure s
+
+/-- stage 2: quality information (class 33 after 222000) -/
+def stQa (e : Elem) (s : St) : CM St :=
+  if xOf e.id = 33 then
+    let s1 := if s.regs.qa = .waiting then s.setRegs fun r => { r with qa := .processing } else s
+    if s1.regs.qa = .processing then do
+      let ((owner, _), s2) ← nextBitmapped s1
+      pure (addLink s2 owner)
+    else pure s1
+  else
+    pure (if s.regs.qa = .processing then s.setRegs fun r => { r with qa := .na } else s)
+
+/-- stage 3: the value itself -/
+def stValue (P : Prims) (dd : DDesc) (e : Elem) (s : St) : CM St :=
+  match e.kind with
+  | .string =>
+    let nbytes := if s.regs.newNbytes ≠ 0 then s.regs.newNbytes else e.nbits / 8
+    P.string dd nbytes s
+  | .codeflag => P.codeflag dd e.nbits s
+  | .numeric =>
+    let nbits : Int := (e.nbits : Int) + s.regs.nbitsOffset + s.regs.nbitsInc
+    let scale : Int := e.scale + s.regs.scaleOffset + s.regs.scaleInc
+    match lookupRef s.regs.newRefvals e.id with
+    | none => P.numeric dd nbits scale (e.ref * s.regs.refFactor) s
+    | some nr => P.numeric dd nbits scale (nr * s.regs.refFactor) s
+
+theorem elementDescriptor_eq (P : Prims) (dd : DDesc) (e : Elem) (s : St) :
+    elementDescriptor P dd e s = (stAssoc P e s >>= fun s => stQa e s >>= fun s => stValue P dd e s) := rfl
+
+theorem stAssoc_ok {P : Prims} (hP : Quiet P) {e : Elem} {s s1 : St} (h : stAssoc P e s = .ok s1) :
+    ((s.regs.assocStack ≠ [] ∧ xOf e.id ≠ 31) ∧ Same s s1 (.assoc e.id s.regs.assocStack.sum)) ∨
+    (¬ (s.regs.assocStack ≠ [] ∧ xOf e.id ≠ 31) ∧ s1 = s) := by
+  unfold stAssoc at h
+  split at h
+  · next hc => left; exact ⟨hc, hP.codeflag _ _ _ _ h⟩
+  · next hc => right; injection h with h; exact ⟨hc, h.symm⟩
+
+theorem stValue_ok {P : Prims} (hP : Quiet P) {dd : DDesc} {e : Elem} {s s3 : St} (h : stValue P dd e s = .ok s3) :
+    Same s s3 dd := by
+  unfold stValue at h
+  split at h
+  · exact hP.string _ _ _ _ h
+  · exact hP.codeflag _ _ _ _ h
+  · split at h
+    · exact hP.numeric _ _ _ _ _ _ h
+    · exact hP.numeric _ _ _ _ _ _ h
+
+/-- does this element take the next entry of the bit-map selection -/
+def takesBit (e : Elem) (s : St) : Prop := xOf e.id = 33 ∧ s.regs.qa ≠ .na
+
+instance (e : Elem) (s : St) : Decidable (takesBit e s) := by unfold takesBit; infer_instance
+
+theorem stQa_ok {e : Elem} {s s2 : St} (h : stQa e s = .ok s2) :
+    s2.descs = s.descs ∧ s2.regs.assocStack = s.regs.assocStack ∧
+    ((takesBit e s ∧ ∃ owner el rest, s.regs.bmIter = some ((owner, el) :: rest) ∧
+        s2.links = (s.descs.length, owner) :: s.links ∧ s2.regs.bmIter = some rest ∧ s2.regs.qa = .processing) ∨
+     (¬ takesBit e s ∧ s2.links = s.links ∧ s2.regs.bmIter = s.regs.bmIter)) := by
+  unfold stQa at h
+  by_cases hx : xOf e.id = 33
+  · rw [if_pos hx] at h
+    cases hq : s.regs.qa with
+    | na =>
+      simp only [hq, reduceCtorEq, if_false] at h
+      simp only [hq, reduceCtorEq, if_false, pure, Except.pure] at h
+      injection h with h; subst h
+      exact ⟨rfl, rfl, Or.inr ⟨by simp [takesBit, hq], rfl, rfl⟩⟩
+    | waiting =>
+      simp only [hq, St.setRegs, if_true, bind, Except.bind, nextBitmapped] at h
+      cases hb : s.regs.bmIter with
+      | none => simp [hb] at h
+      | some l =>
+        cases l with
+        | nil => simp [hb] at h
+        | cons x rest =>
+          obtain ⟨owner, el⟩ := x
+          simp only [hb, pure, Except.pure, St.setRegs, addLink] at h
+          injection h with h; subst h
+          exact ⟨rfl, rfl, Or.inl ⟨by simp [takesBit, hx, hq], owner, el, rest, rfl, rfl, rfl, rfl⟩⟩
+    | processing =>
+      simp only [hq, reduceCtorEq, if_false] at h
+      simp only [hq, if_true, St.setRegs, bind, Except.bind, nextBitmapped] at h
+      cases hb : s.regs.bmIter with
+      | none => simp [hb] at h
+      | some l =>
+        cases l with
+        | nil => simp [hb] at h
+        | cons x rest =>
+          obtain ⟨owner, el⟩ := x
+          simp only [hb, pure, Except.pure, St.setRegs, addLink] at h
+          injection h with h; subst h
+          exact ⟨rfl, rfl, Or.inl ⟨by simp [takesBit, hx, hq], owner, el, rest, rfl, rfl, rfl, rfl⟩⟩
+  · rw [if_neg hx] at h
+    simp only [pure, Except.pure] at h
+    injection h with h; subst h
+    by_cases hq : s.regs.qa = .processing
+    · simp only [hq, if_true, St.setRegs]
+      refine ⟨?_, ?_, Or.inr ⟨by simp [takesBit, hx], ?_, ?_⟩⟩ <;> trivial
+    · simp only [hq, if_false]
+      refine ⟨?_, ?_, Or.inr ⟨by simp [takesBit, hx], ?_, ?_⟩⟩ <;> trivial
+
+end Bufr.C07
